@@ -212,18 +212,19 @@ def run(tier, seed):
         for i, c in enumerate(cases):
             wr = True if lvl != "trait" else t_writable(c)
             inp.append({"id": i, "srcs": [orig(c), unr(c) if (wr and not c["conflict"]) else orig(c)]})
-        res = core.expand(inp, "syn1", events=True)
-        for i, (c, rr) in enumerate(zip(cases, res)):
-            a, b = rr["runs"]
-            dump = [e for e in a.get("events", []) if e.get("ev") == "parsed"]
-            merged = []
-            if dump:
-                merged = {"member": m_merged, "variant": n_merged, "vfield": v_merged, "trait": t_merged}[lvl](dump[0])
-            rid = f"{cfg}:{i}"
-            srcs[rid] = inp[i]["srcs"]
-            trace.append({"id": rid, "lvl": "member" if lvl == "variant" else lvl, "stream": lvl, "s": c["ms"] if lvl in ("member", "variant") else c["fs"] if lvl == "vfield" else c["ts"], "v1": a["verdict"], "v2": b["verdict"],
-                          "same": a.get("out") == b.get("out"), "merged": merged,
-                          "writable": (True if lvl != "trait" else t_writable(c))})
+        for lo in range(0, len(inp), 20000):               # in chunks: the hook dumps of a whole thorough configuration do not fit in memory
+            res = core.expand(inp[lo:lo + 20000], "syn1", events=True)
+            for i, (c, rr) in enumerate(zip(cases[lo:lo + 20000], res), lo):
+                a, b = rr["runs"]
+                dump = [e for e in a.get("events", []) if e.get("ev") == "parsed"]
+                merged = []
+                if dump:
+                    merged = {"member": m_merged, "variant": n_merged, "vfield": v_merged, "trait": t_merged}[lvl](dump[0])
+                rid = f"{cfg}:{i}"
+                srcs[rid] = inp[i]["srcs"]
+                trace.append({"id": rid, "lvl": "member" if lvl == "variant" else lvl, "stream": lvl, "s": c["ms"] if lvl in ("member", "variant") else c["fs"] if lvl == "vfield" else c["ts"],
+                              "v1": a["verdict"], "v2": b["verdict"], "same": a.get("out") == b.get("out"), "merged": merged,
+                              "writable": (True if lvl != "trait" else t_writable(c))})
     stream_of = {t["id"]: t["stream"] for t in trace}
     ok, mism, st = core.judge("Trace_C14", trace, tag="c14", timeout=3000)
     ctx.add_tlc(st)
